@@ -372,9 +372,11 @@ def gen_free(rng, n):
 WITNESS_RESUME_ALIAS = [      # the cleanup pad of f1 calls _Unwind_Resume at the slot f2's entry still names
     ("Call", 0, 100, 11, 103), ("Call", 1, 90, 12, 99), ("Call", 2, 80, 13, 89),
     ("Throw",), ("Unwind",), ("Resume", 80, 14)]
-MIXED_CHAIN = [               # PLT function tail-calls a traced function; exception caught further in
-    ("Call", 0, 100, 11, 103), ("Plt", 0, 90, 12, 0), ("TCall", 1, 90, 92), ("Call", 2, 80, 13, 89),
-    ("Throw",), ("Catch", 79), ("Ret", 80), ("Ret", 90)]
+MIXED_CHAIN = [               # PLT function tail-calls a traced function that throws and catches itself
+    ("Call", 0, 100, 11, 103), ("Plt", 0, 90, 12, 0), ("TCall", 1, 90, 92), ("Throw",), ("Catch", 89), ("Ret", 90)]
+WITNESS_FENTRY = [            # -mfentry style frame address: the dead callee's entry survives as a phantom parent
+    ("Call", 0, 100, 11, 103), ("Call", 1, 90, 12, 99), ("Call", 2, 80, 13, 89), ("Throw",), ("Unwind",),
+    ("Call", 6, 80, 19, 0), ("Ret", 80)]
 CORPUS = [
     [("Call", 0, 100, 11, 103), ("Call", 1, 90, 12, 99), ("Plt", 4, 80, 13, 1), ("Ret", 80),
      ("Call", 2, 80, 14, 89), ("Call", 3, 70, 15, 79), ("Plt", 7, 60, 16, 1), ("Ret", 90), ("Ret", 100)],
@@ -570,7 +572,7 @@ def run_inproc(ctx, objdir):
         tags.add("slots:call-site" if realistic else "slots:free")
         ops = Prog(ctx.rng, tags, realistic).run(ctx.rng.choice([15, 30, 50, 70]))
         progs.append((tags, ops))
-    frees = [MIXED_CHAIN, WITNESS_RESUME_ALIAS]
+    frees = [MIXED_CHAIN, WITNESS_RESUME_ALIAS, WITNESS_FENTRY]
     for i in range(ctx.n(200, 3000)):
         frees.append(gen_free(ctx.rng, ctx.rng.choice([8, 20, 40])))
     flags, results = h.run_many([ops for _, ops in progs] + frees)
